@@ -17,7 +17,7 @@ Definition created_by (s : lst) (o : lop) : list Z :=
   match o with
   | OCreateNode id | OCreateCl id | OCreateGrp id _ | OCreateZst id => [id]
   | OCreateRef id => [id; id + 500]
-  | OChild h | OChildMut h => match lget s h with LNode id => [id + 100] | _ => [] end
+  | OChild h | OChildMut h | OGrpKid h => match lget s h with LNode id => [id + 100] | _ => [] end
   | OGrpChildMut h => match lget s h with LGrp id _ | LGrpC id => [id + 100] | _ => [] end
   | OIntoChild h => match lget s h with LNode id => [id + 200] | _ => [] end
   | OGrpIntoChild h => match lget s h with LGrp id _ | LGrpC id => [id + 200] | _ => [] end
@@ -125,7 +125,7 @@ Theorem lstep_inv s o : LInv s ->
   (uses_borrowed o = false -> leaked s' = leaked s).
 Proof.
   intros I. pose proof I as (IL & IV & IK).
-  destruct o as [id|id|id|id e|h|h|h|h|h|h|h|h|h|id|id|id|h|h|h|h]; cbn [lstep created_by uses_borrowed].
+  destruct o as [id|id|id|id e|h|h|h|h|h|h|h|h|h|id|id|id|h|h|h|h|h]; cbn [lstep created_by uses_borrowed].
   - exact (spawn_step s (LNode id) 0 I eq_refl).
   - exact (spawn_step s (LCl id) 8 I eq_refl).
   - exact (spawn_step s (LRef id) 9 I eq_refl).
@@ -175,6 +175,8 @@ Proof.
     exact (spawn_step s (LChild (id + 100)) 18 I eq_refl).
   - destruct (lget s h) eqn:G; try exact (rej_step s 19 (OCall h) I).
     all: exact (spawn_step s (LChild (id + 100)) 19 I eq_refl).
+  - destruct (lget s h) eqn:G; try exact (rej_step s 20 (OCall h) I).
+    exact (spawn_step s (LGrp (id + 100) true) 20 I eq_refl).
 Qed.
 
 (* ---- whole histories ------------------------------------------------------------------------------------------ *)
